@@ -400,14 +400,14 @@ def Cmd.name : Cmd → Name
   | .undeclare a => a.name
   | .assignTag _ _ n _ _ => n
   | .unassignTag _ _ n _ _ _ => n
-  | .remove _ n _ _ _ => n
+  | .remove _ n _ _ _ _ _ => n
   | .query _ => []
 
 /-- the versions whose declaration the command may change -/
 def Cmd.fpVer : Cmd → Ver → Prop
   | .declare a, v => v = a.ver
   | .undeclare a, v => (a.tag = none ∨ a.versionAndTag = true) ∧ ∀ v', a.ver = some v' → v = v'
-  | .remove _ _ v' _ _, v => v = v'
+  | .remove _ _ v' _ _ _ _, v => v = v'
   | _, _ => False
 
 /-- the tags the command may assign or unassign -/
@@ -496,7 +496,9 @@ theorem undeclareVersion_trOK {nst : Nat} {a : UndeclareArgs} {ver : Option Ver}
   · rename_i v hvr
     split
     · exact h
-    · exact removeVersion_trOK (hv v (inferVersion_some hvr)) (untagFirst_trOK h)
+    · split
+      · exact h
+      · exact removeVersion_trOK (hv v (inferVersion_some hvr)) (untagFirst_trOK h)
 
 theorem undeclare_trOK {nst : Nat} {a : UndeclareArgs} {p : Proc}
     (h : TrOK (Within a.name a.self (Cmd.fpVer (.undeclare a)) (fun t => a.tag = some t)) p) :
@@ -514,17 +516,17 @@ theorem undeclare_trOK {nst : Nat} {a : UndeclareArgs} {p : Proc}
       simp [hver]
     · exact unassignTag_trOK ht h
 
-theorem remove_trOK {nst : Nat} {f : Flav} {n : Name} {v : Ver} {rc na : Bool} {p : Proc}
-    (h : TrOK (Within n f (fun v' => v' = v) (fun _ => False)) p) :
-    TrOK (Within n f (fun v' => v' = v) (fun _ => False)) (remove nst f n v rc na p).2 := by
+theorem remove_trOK {nst : Nat} {f : Flav} {n : Name} {v : Ver} {rc na fo : Bool} {su : Option (Ver × Flav × Nat)}
+    {p : Proc} (h : TrOK (Within n f (fun v' => v' = v) (fun _ => False)) p) :
+    TrOK (Within n f (fun v' => v' = v) (fun _ => False)) (remove nst f n v rc na fo su p).2 := by
   unfold remove
   split
   · exact h
   · split
     · exact h
     have hu : TrOK (Within n f (fun v' => v' = v) (fun _ => False))
-        (undeclare nst ⟨f, n, some v, none, none, false, na⟩ p).2 := by
-      have := undeclareVersion_trOK (nst := nst) (a := ⟨f, n, some v, none, none, false, na⟩) (ver := some v)
+        (undeclare nst ⟨f, n, some v, none, none, false, na, fo, su⟩ p).2 := by
+      have := undeclareVersion_trOK (nst := nst) (a := ⟨f, n, some v, none, none, false, na, fo, su⟩) (ver := some v)
         (p := p) (vs := fun v' => v' = v) (fun v' hv => hv v rfl)
         (by intro e he; have := h e he; revert this; cases e <;> simp [Within])
       intro e he
@@ -550,7 +552,7 @@ theorem run_trOK (nst : Nat) (c : Cmd) (p : Proc)
   | undeclare a => exact undeclare_trOK h
   | assignTag f t n v st => exact assignTag_trOK (ts := fun t' => t' = t) rfl h
   | unassignTag f t n v st na => exact unassignTag_trOK (ts := fun t' => t' = t) rfl h
-  | remove f n v rc na => exact remove_trOK h
+  | remove f n v rc na fo su => exact remove_trOK h
   | query f => exact h
 
 /-! ## dry runs emit nothing -/
@@ -607,7 +609,9 @@ theorem undeclareVersion_noaction {nst : Nat} {a : UndeclareArgs} (h : a.noactio
   · rfl
   · split
     · rfl
-    · rw [removeVersion_noaction h, untagFirst_noaction h]
+    · split
+      · rfl
+      · rw [removeVersion_noaction h, untagFirst_noaction h]
 
 theorem undeclare_noaction {nst : Nat} {a : UndeclareArgs} (h : a.noaction = true) (p : Proc) :
     (undeclare nst a p).2 = p := by
@@ -618,14 +622,14 @@ theorem undeclare_noaction {nst : Nat} {a : UndeclareArgs} (h : a.noaction = tru
     · exact undeclareVersion_noaction h _ _
     · rw [h]; exact unassignTag_noaction _ _ _ _ _ _ _
 
-theorem remove_noaction (nst : Nat) (f : Flav) (n : Name) (v : Ver) (rc : Bool) (p : Proc) :
-    (remove nst f n v rc true p).2 = p := by
+theorem remove_noaction (nst : Nat) (f : Flav) (n : Name) (v : Ver) (rc fo : Bool) (su : Option (Ver × Flav × Nat))
+    (p : Proc) : (remove nst f n v rc true fo su p).2 = p := by
   unfold remove
   split
   · rfl
   · split
     · rfl
-    have hu := undeclare_noaction (nst := nst) (a := ⟨f, n, some v, none, none, false, true⟩) rfl p
+    have hu := undeclare_noaction (nst := nst) (a := ⟨f, n, some v, none, none, false, true, fo, su⟩) rfl p
     split
     · rename_i p1 heq
       rw [heq] at hu
@@ -641,8 +645,8 @@ theorem run_noaction (nst : Nat) (c : Cmd) (h : c.noaction = true) (p : Proc) : 
   | assignTag f t n v st => simp [Cmd.noaction] at h
   | unassignTag f t n v st na =>
     simp only [Cmd.noaction] at h; subst h; exact unassignTag_noaction _ _ _ _ _ _ _
-  | remove f n v rc na =>
-    simp only [Cmd.noaction] at h; subst h; exact remove_noaction _ _ _ _ _ _
+  | remove f n v rc na fo su =>
+    simp only [Cmd.noaction] at h; subst h; exact remove_noaction _ _ _ _ _ _ _ _
   | query f => rfl
 
 /-! ## outcomes -/
@@ -736,10 +740,14 @@ theorem undeclareVersion_refused {nst : Nat} {a : UndeclareArgs} {ver : Option V
     | none => rfl
     | some prod =>
       rw [hf] at h
-      dsimp only at h
-      exfalso
-      rcases removeVersion_outcome a v prod.stack (untagFirst nst a v prod.stack p) with h' | h' <;>
-        rw [h'] at h <;> cases h
+      dsimp only at h ⊢
+      split
+      · rfl
+      · rename_i hset
+        rw [if_neg hset] at h
+        exfalso
+        rcases removeVersion_outcome a v prod.stack (untagFirst nst a v prod.stack p) with h' | h' <;>
+          rw [h'] at h <;> cases h
 
 theorem undeclare_refused {nst : Nat} {a : UndeclareArgs} {p : Proc} (h : (undeclare nst a p).1 = .refused) :
     (undeclare nst a p).2 = p := by
@@ -757,8 +765,8 @@ theorem undeclare_refused {nst : Nat} {a : UndeclareArgs} {p : Proc} (h : (undec
       exfalso
       rcases unassignTag_outcome nst a.self t a.name a.ver a.stack a.noaction p with h' | h' <;> rw [h'] at h <;> cases h
 
-theorem remove_refused {nst : Nat} {f : Flav} {n : Name} {v : Ver} {rc na : Bool} {p : Proc}
-    (h : (remove nst f n v rc na p).1 = .refused) : (remove nst f n v rc na p).2 = p := by
+theorem remove_refused {nst : Nat} {f : Flav} {n : Name} {v : Ver} {rc na fo : Bool} {su : Option (Ver × Flav × Nat)}
+    {p : Proc} (h : (remove nst f n v rc na fo su p).1 = .refused) : (remove nst f n v rc na fo su p).2 = p := by
   unfold remove at h ⊢
   cases hf : p.mem.findIn (allStacks nst) n v f with
   | none => rfl
@@ -769,7 +777,7 @@ theorem remove_refused {nst : Nat} {f : Flav} {n : Name} {v : Ver} {rc na : Bool
     · rfl
     · rename_i hrc
       rw [if_neg hrc] at h
-      cases hu : undeclare nst ⟨f, n, some v, none, none, false, na⟩ p with
+      cases hu : undeclare nst ⟨f, n, some v, none, none, false, na, fo, su⟩ p with
       | mk o p1 =>
         rw [hu] at h
         cases o with
@@ -780,7 +788,7 @@ theorem remove_refused {nst : Nat} {f : Flav} {n : Name} {v : Ver} {rc na : Bool
           · cases h
           · split at h <;> cases h
         | refused =>
-          have := undeclare_refused (nst := nst) (a := ⟨f, n, some v, none, none, false, na⟩) (p := p) (by rw [hu])
+          have := undeclare_refused (nst := nst) (a := ⟨f, n, some v, none, none, false, na, fo, su⟩) (p := p) (by rw [hu])
           rw [hu] at this
           simpa using this
         | notFound => cases h
@@ -800,7 +808,7 @@ theorem run_refused (nst : Nat) (c : Cmd) (p : Proc) (h : (run nst c p).1 = .ref
   | unassignTag f t n v st na =>
     exfalso; simp only [run] at h
     rcases unassignTag_outcome nst f t n v st na p with h' | h' <;> rw [h'] at h <;> cases h
-  | remove f n v rc na => exact remove_refused h
+  | remove f n v rc na fo su => exact remove_refused h
   | query f => rfl
 
 /-- a conflicting redeclaration — another directory, or a table file where `none` was declared — without
@@ -893,6 +901,9 @@ theorem undeclare_ok {nst : Nat} {a : UndeclareArgs} {p : Proc}
       | none => rw [hf] at hk; cases hk
       | some prod =>
         rw [hf] at hk; dsimp only at hk ⊢
+        by_cases hset : (isSetup a p.mem prod.stack v && !a.force) = true
+        · rw [if_pos hset] at hk; cases hk
+        rw [if_neg hset] at hk ⊢
         unfold removeVersion at hk ⊢
         rw [hna] at hk ⊢
         simp only [Bool.false_eq_true, if_false] at hk ⊢
@@ -1049,7 +1060,9 @@ theorem undeclareVersion_base (nst : Nat) (a : UndeclareArgs) (ver : Option Ver)
   · exact SameBase.refl p
   · split
     · exact SameBase.refl p
-    · have h1 : ∀ v s, SameBase p (untagFirst nst a v s p) := by
+    · split
+      · exact SameBase.refl p
+      have h1 : ∀ v s, SameBase p (untagFirst nst a v s p) := by
         intro v s; unfold untagFirst; split
         · exact unassignTag_base _ _ _ _ _ _ _ _
         · exact SameBase.refl p
@@ -1069,14 +1082,14 @@ theorem undeclare_base (nst : Nat) (a : UndeclareArgs) (p : Proc) : SameBase p (
     · exact undeclareVersion_base _ _ _ _
     · exact unassignTag_base _ _ _ _ _ _ _ _
 
-theorem remove_base (nst : Nat) (f : Flav) (n : Name) (v : Ver) (rc na : Bool) (p : Proc) :
-    SameBase p (remove nst f n v rc na p).2 := by
+theorem remove_base (nst : Nat) (f : Flav) (n : Name) (v : Ver) (rc na fo : Bool) (su : Option (Ver × Flav × Nat))
+    (p : Proc) : SameBase p (remove nst f n v rc na fo su p).2 := by
   unfold remove
   split
   · exact SameBase.refl p
   · split
     · exact SameBase.refl p
-    have hu := undeclare_base nst ⟨f, n, some v, none, none, false, na⟩ p
+    have hu := undeclare_base nst ⟨f, n, some v, none, none, false, na, fo, su⟩ p
     split
     · rename_i p1 heq
       rw [heq] at hu
@@ -1094,7 +1107,7 @@ theorem run_base (nst : Nat) (c : Cmd) (p : Proc) : SameBase p (run nst c p).2 :
   | undeclare a => exact undeclare_base nst a p
   | assignTag f t n v st => exact assignTag_base _ _ _ _ _ _
   | unassignTag f t n v st na => exact unassignTag_base _ _ _ _ _ _ _ _
-  | remove f n v rc na => exact remove_base _ _ _ _ _ _ _
+  | remove f n v rc na fo su => exact remove_base _ _ _ _ _ _ _ _ _
   | query f => exact SameBase.refl p
 
 /-! ## what `findProducts` lists comes from the view -/
